@@ -55,7 +55,8 @@ def gen_case(seed):
     w["faults"]["cut"] = None
     w["sim"]["loop_timeout"] = min(w["sim"]["loop_timeout"], 3000)
     return {"seed": seed, "world": w, "format": r.choice(["json", "yaml"]),
-            "random_seed": r.randrange(1, 10 ** 6)}
+            # seed 0 is a seed like any other (and the one a falsy-check slip would lose)
+            "random_seed": 0 if r.random() < 0.2 else r.randrange(1, 10 ** 6)}
 
 
 SCHED_FLAG = {"EDF": "EDF", "FIFO": "FIFO", "LSF": "LSF", "ILP": "ILP", "TetriSchedGurobi": "TetriSched_Gurobi",
